@@ -3,5 +3,9 @@ CONSTANTS
   HasPre = FALSE
   MaxSlot = 3
   MaxSig = 4
+  Cap = 2
+  Vals <- AllVals
+  Quorums <- AllQuorums
+  PrevDec = "code"
   Weaken <- WNoRoute
 INVARIANT SigWindow
